@@ -332,6 +332,10 @@ class DefaultOperatorResolver(OperatorResolver):
         def nested_product_expansion(
             parents: OrderedSet[Term], nested: OrderedSet[Term]
         ) -> OrderedSet[Term]:
+            if not parents:
+                raise FormulaParsingError(
+                    "Nesting operators (`/` and `%in%`) require at least one parent term."
+                )
             common = functools.reduce(lambda x, y: x * y, parents)
             return cast(
                 OrderedSet, parents | OrderedSet(common * term for term in nested)
